@@ -211,11 +211,25 @@ fn read_file(path: &std::path::Path) -> Result<String, ReadFileError> {
     use std::io::prelude::*;
 
     let mut out = String::new();
+    #[cfg(graphql_client_verif)]
+    if let Some(io_error) = verif_hooks::fault_point("read_file.open", path) {
+        return Err(ReadFileError::FileNotFound {
+            io_error,
+            path: path.display().to_string(),
+        });
+    }
     let mut file = fs::File::open(path).map_err(|io_error| ReadFileError::FileNotFound {
         io_error,
         path: path.display().to_string(),
     })?;
 
+    #[cfg(graphql_client_verif)]
+    if let Some(io_error) = verif_hooks::fault_point("read_file.read", path) {
+        return Err(ReadFileError::ReadError {
+            io_error,
+            path: path.display().to_string(),
+        });
+    }
     file.read_to_string(&mut out)
         .map_err(|io_error| ReadFileError::ReadError {
             io_error,
